@@ -15,12 +15,12 @@ type Pool struct {
 }
 
 type poolJob struct {
-	c    *Case
-	done func(*Case, Obs)
+	lines []Line
+	done  func(*Line, Obs)
 }
 
 func NewPool(n int) *Pool {
-	p := &Pool{n: n, jobs: make(chan poolJob, 4096)}
+	p := &Pool{n: n, jobs: make(chan poolJob, 256)}
 	for i := 0; i < n; i++ {
 		p.wg.Add(1)
 		go func() {
@@ -35,24 +35,42 @@ func NewPool(n int) *Pool {
 				w.Close()
 			}()
 			for j := range p.jobs {
-				o, err := w.Do(j.c)
+				cs := make([]*Case, len(j.lines))
+				for i := range j.lines {
+					cs[i] = &j.lines[i].C
+				}
+				obs, err := w.DoBatch(cs)
 				if err != nil {
 					p.mu.Lock()
 					if p.err == nil {
 						p.err = err
 					}
 					p.mu.Unlock()
-					o = Obs{Kind: "harness", Msg: err.Error()}
+					obs = make([]Obs, len(cs))
+					for i := range obs {
+						obs[i] = Obs{Kind: "harness", Msg: err.Error()}
+					}
 				}
-				j.done(j.c, o)
+				for i := range j.lines {
+					j.done(&j.lines[i], obs[i])
+				}
 			}
 		}()
 	}
 	return p
 }
 
-// Submit queues a case; done is called from a pool goroutine.
-func (p *Pool) Submit(c *Case, done func(*Case, Obs)) { p.jobs <- poolJob{c, done} }
+// SubmitBatch queues cases (in chunks of at most 48); done is called from a pool goroutine.
+func (p *Pool) SubmitBatch(lines []Line, done func(*Line, Obs)) {
+	for len(lines) > 0 {
+		n := len(lines)
+		if n > 48 {
+			n = 48
+		}
+		p.jobs <- poolJob{lines[:n], done}
+		lines = lines[n:]
+	}
+}
 
 // Wait closes the queue and waits for all replies.
 func (p *Pool) Wait() error {
